@@ -52,6 +52,28 @@ def _r1(ctx, pkg):
               "the hash reads only what __eq__/rpeq compare" if not extra else f"the hash reads {extra}, which equality ignores: equal reactions get different hashes",
               expected=f"subset of {sorted(compared)}", found=str(sorted(reads)))
     ctx.check({"reactants", "products"} <= reads, "R1", "Reaction.__hash__:covers both sides", (RF, hf.lineno), "reactants and products both enter the hash")
+    # rpeq itself: the two sides are compared as multisets under Species equality (Counter), or through a canonical order
+    # whose key equal species share -- a name order does not (e- / E, #CO / GCO sort apart and misalign the lists)
+    rsorts = [c for c in ast.walk(rp) if isinstance(c, ast.Call) and ast.unparse(c.func) == "sorted"]
+    rsrc = ast.unparse(rp)
+    if rsorts:
+        lt0 = pkg.method("Species", "__lt__")
+        keyset = attrs_read(lt0)
+        for c in rsorts:
+            k = next((kw.value for kw in c.keywords if kw.arg == "key"), None)
+            if k is not None:
+                keyset = {n.attr for n in ast.walk(k) if isinstance(n, ast.Attribute)}
+        disj0, _ = eq_disjuncts(pkg.method("Species", "__eq__"))
+        loose0 = [" & ".join(f"{l[0]}:{l[1]}" for l in sorted(d)) for d in disj0 if not keyset <= {l[1] for l in d if l[0] == "eq"}]
+        ctx.check(not loose0, "R1", "Reaction.rpeq:multiset comparison", (RF, rp.lineno),
+                  "the canonical order uses a key that equal species share" if not loose0 else
+                  f"rpeq compares lists sorted by {sorted(keyset)}, but Species.__eq__ equates species whose {sorted(keyset)} differ (disjuncts {loose0}): with a partner that "
+                  "sorts between the two spellings the lists misalign, == is False while the hashes agree, and the repeat is entered as a new key",
+                  expected="Counter(self.reactants) == Counter(o.reactants) and Counter(self.products) == Counter(o.products)", found=" ".join(rsrc.split())[-160:])
+    else:
+        okc = all(re.search(rf"Counter\(self\.{a}\)\s*==\s*Counter\(\w+\.{a}\)", rsrc) for a in ("reactants", "products"))
+        ctx.check(okc, "R1", "Reaction.rpeq:multiset comparison", (RF, rp.lineno), "both sides are compared as Counters (multisets under Species equality and hash)",
+                  expected="Counter(self.reactants) == Counter(o.reactants) and Counter(self.products) == Counter(o.products)", found=" ".join(rsrc.split())[-160:])
     # canonicalising order
     sorts = [c for c in ast.walk(hf) if isinstance(c, ast.Call) and ast.unparse(c.func) == "sorted"]
     if not sorts:
@@ -321,6 +343,8 @@ def _r4_callers(ctx, pkg, rule="R4"):
 
 
 MUTANTS = [
+    {"name": "rpeq-sorted-lists", "file": RF, "old": "        return Counter(self.reactants) == Counter(o.reactants) and Counter(\n            self.products\n        ) == Counter(o.products)", "new": "        return sorted(self.reactants) == sorted(o.reactants) and sorted(self.products) == sorted(o.products)", "rules": ["R1"]},
+    {"name": "rpeq-sets", "file": RF, "old": "        return Counter(self.reactants) == Counter(o.reactants) and Counter(\n            self.products\n        ) == Counter(o.products)", "new": "        return set(self.reactants) == set(o.reactants) and set(self.products) == set(o.products)", "rules": ["R1"]},
     {"name": "format-memoised-in-instance", "edits": [
         {"file": RF, "old": "    def __format__(self, form: str) -> str:\n        verbose = None\n", "new": "    def __format__(self, form: str) -> str:\n        verbose = self.__dict__.setdefault('_kf', {}).get(form)\n        if verbose is not None:\n            return verbose\n"},
         {"file": RF, "old": '            raise ValueError(f"Unknown format: {form}")\n\n        return verbose', "new": '            raise ValueError(f"Unknown format: {form}")\n\n        self._kf[form] = verbose\n        return verbose'}], "rules": ["R5"]},
